@@ -126,6 +126,27 @@ Example C07_no_wedge_needs_depfixer :
   b_fail (build (rules_of false objs) f 100) = Some 1.
 Proof. vm_compute. repeat split. Qed.
 
+(* The same happens in the unchanged tree after a compile that FAILED: the compiler writes the depfile while it
+   preprocesses, the depfixer is a later recipe line that a failed compile never reaches, so the depfile of that one
+   object stays raw until the object compiles again.  Object 10 (source 2) was compiled successfully and recorded header
+   1; object 11 (source 3) was being edited: it included the new header 4 and did not compile.  The user backs the edit
+   out (header 4 deleted, no longer included): Make stops with  No rule to make target 4  (finding
+   C07-failed-compile-raw-depfile; had the depfile been fixed, the build would go through). *)
+Example C07_failed_compile_refuted :
+  let o10 := mkObj 10 2 [2; 1] in
+  let o11 := mkObj 11 3 [3; 4] in
+  let f := fs_of [(1, 5); (2, 6); (3, 60); (10, 50)] in
+  objs_ok [o10; o11] /\
+  b_fail (build (rules_of_mixed [(o10, true); (o11, false)]) f 100) = Some 4 /\
+  b_fail (build (rules_of_mixed [(o10, true); (o11, true)]) f 100) = None /\
+  b_log (build (rules_of_mixed [(o10, true); (o11, true)]) f 100) = [11] /\
+  rules_of_mixed [(o10, true); (o11, true)] = rules_of true [o10; o11].
+Proof.
+  split; [|vm_compute; repeat split].
+  split; [repeat constructor; cbn; intuition congruence|].
+  intros o o' [<-|[<-|[]]] [<-|[<-|[]]]; cbn; intuition congruence.
+Qed.
+
 (* The edit-history invariant, with the preprocessor's include scanner as an oracle (a variable of the theorem):
    Inv = every depfile records exactly what a compile of its source reads now, and every object is at least as new
    as everything recorded.  After ANY edit satisfying edit_ok (modify / create / delete / rename = delete + create of
